@@ -656,6 +656,9 @@ func init() {
 		Corpus: [][]string{
 			// waiter's critical section, then the writer's, then the waiter's select: the wake-up must not be lost
 			{"gate preblock 1", "wait ge 2", "hit 0", "hold s2 b", "open 0", "quiesce"},
+			// the same window closed right after the waiter's critical section (hold-exit comes before preblock)
+			{"gate hold-exit 1", "wait ge 2", "hit 0", "hold s2 b", "open 0", "quiesce"},
+			{"gate hold-exit 1", "wait err 1", "hit 0", "hold b s1", "open 0", "quiesce"},
 			// the same with a broadcast that does not satisfy the predicate, then one that does
 			{"gate preblock 1", "wait eq 3", "hit 0", "hold s1 b", "open 0", "settle", "hold g", "probe 2 0", "hold s3 b", "probe 2 0", "quiesce"},
 			// cancel racing a broadcast while the waiter is between sample and block
